@@ -27,11 +27,12 @@ RULES = {
             "StorFrameOrder", "StorFrameMismatch", "StorFrameNotFromCamera", "StopIncomplete"},
     "C07": {"Hang", "WorkersAliveAfterStop", "WorkersAliveAfterShutdown", "CameraRunningAfterStop", "StorageRunningAfterStop",
             "NotArmedAfterStop", "ActivityAfterStop", "StopIncomplete", "StopCameraIncomplete", "StorFrameOrder",
-            "StorFrameMismatch", "StorFrameNotFromCamera", "StartFailed", "MonFrameMismatch", "MonDataAfterStop"},
+            "StorFrameMismatch", "StorFrameNotFromCamera", "StartFailed", "MonFrameMismatch", "MonDataAfterStop",
+            "AvgWindowId", "AvgWrongMean", "AvgPartialNotLast", "AvgIncomplete", "AvgNotFloat"},
     "C09": {"Hang", "AppendAfterStorFail", "CameraRunningAfterStop", "StorageRunningAfterStop", "WorkersAliveAfterStop",
             "RunningWithoutWorkers", "NotArmedAfterStop", "StopIncomplete", "StopCameraIncomplete", "StorFrameOrder",
             "StorFrameMismatch", "StorFrameNotFromCamera", "StartFailed", "ActivityAfterStop"},
-    "C10": {"AvgNotFloat", "AvgWindowId", "AvgTooManyFrames", "AvgBeforeInputs", "AvgWrongMean", "AvgIncomplete",
+    "C10": {"AvgNotFloat", "AvgWindowId", "AvgTooManyFrames", "AvgBeforeInputs", "AvgWrongMean", "AvgIncomplete", "AvgPartialNotLast",
             "FrameShape", "FrameSizeField", "StopCameraIncomplete"},
 }
 HARNESS_RULES = {"UnknownEvent"}
@@ -87,18 +88,24 @@ def monitor_ops(rng, s, n):
 
 def gen_config(rng, fam, out, i):
     ns = 2 if rng.random() < 0.25 else 1
-    avg = rng.choice([2, 2, 3]) if fam == "avg" else 1
+    avg = rng.choice([2, 2, 3]) if fam == "avg" else (rng.choice([1, 1, 1, 2, 3]) if fam == "abort" else 1)
     streams = [stream_line(rng, s, fam, avg) for s in range(ns)]
     fb = max(max(frame_bytes(d["w"], d["h"], d["type"]), acc_bytes(d["w"], d["h"]) if avg > 1 else 0) for d in streams)
     cap = int(fb * rng.choice([1.2, 1.5, 2.0, 2.5, 2.7, 3.3, 5.0])) + rng.randint(1, 9)
     lines = sched_lines(rng, 1 + 3 * ns)
-    lines += ["cap %d" % cap, "fill %d" % (1 if (fam == "avg" or rng.random() < 0.3) else 0), "streams %d" % ns]
+    lines += ["cap %d" % cap, "fill %d" % (1 if (avg > 1 or rng.random() < 0.3) else 0), "streams %d" % ns]
     prog = []
     nacq = rng.choice([1, 1, 2, 3])
     aborter = None
     monitored = set()
     if fam == "complete":
         for a in range(nacq):
+            if a > 0 and rng.random() < 0.4:
+                # a different region of interest for the next acquisition: frame sizes change between acquisitions
+                s = rng.randrange(ns)
+                nw, nh = rng.randint(1, 9), rng.randint(1, 5)
+                if max(frame_bytes(nw, nh, streams[s]["type"]), 0) < cap:
+                    prog += ["shape", str(s), str(nw), str(nh)]
             prog += ["start"]
             mons = [s for s in range(ns) if rng.random() < 0.4]
             monitored |= set(mons)
